@@ -123,9 +123,11 @@ def slices(tier):
                                  maxmut=1, maxwrite=1, maxrestart=1, maxagain=0, maxevents=2 if not th else 3, restages=(True, False))
     # a placeholder of a loop: the latest iteration is staged, :loopref / :loopoutput check every iteration and stage nothing; the loop iterates
     loop_m = ["copy", "link", "ref", "copyout", "loopref", "loopoutput"]
-    S["hist-loop"] = slice_consts(m1=loop_m, l1=["wa"], m2=["copy", "link"], l2=["pa", "wa"], lens=(1, 2), alt=("none", "dir") if th else ("none",),
-                                  mutlocs=["w0", "w1"], muthows=["mod", "rm", "mkfile"], writes=["o", "a"], iterates=True,
-                                  maxmut=1, maxwrite=1, maxrestart=1, maxagain=2, maxevents=4 if th else 3, restages=(True, False))
+    S["hist-loop"] = slice_consts(m1=loop_m, l1=["wa"], lens=(1,), alt=("none", "dir") if th else (),
+                                  mutlocs=["w0", "w1"], muthows=["mod", "rm", "mkfile"] if th else ["mod", "rm"], writes=["o", "a"] if th else ["a"], iterates=True,
+                                  maxmut=1, maxwrite=1, maxrestart=1, maxagain=1, maxevents=3, restages=(True, False) if th else (True,))
+    S["hist-loop2"] = slice_consts(m1=["copy", "link", "loopref"], l1=["wa"], m2=["copy", "link"], l2=["wa", "pa"], lens=(2,), alt=("none",) if th else (),
+                                   mutlocs=["w1"], muthows=["mod", "rm"], iterates=True, maxmut=1, maxrestart=1, maxagain=1, maxevents=2, restages=(True,))
     S["migrated"] = slice_consts(mig=True, mutlocs=["pa"], writes=["a"], **dict(ev, maxrestart=2, maxevents=4))
     if th:
         S["hist-glob"] = slice_consts(m1=["copy", "link", "ref"], l1=["pg"], mutlocs=["pa"], writes=["o"], **ev)
